@@ -26,6 +26,7 @@ type Contract struct {
 	Lemmas   []*Clause
 	Trusted  bool
 	NoInline bool
+	Inline   bool // requires are checked at call sites, then the body is inlined
 	File     string
 	fn       *ssa.Function
 	Locals   map[string]string // loop var -> "name type, ..." declarations (unused when CheckExpr resolves them)
@@ -42,7 +43,7 @@ type Clause struct {
 	err    error
 }
 
-var kwRe = regexp.MustCompile(`^(func|requires|ensures|loop|watch|lemma|trusted|noinline|end)\b`)
+var kwRe = regexp.MustCompile(`^(func|requires|ensures|loop|watch|lemma|trusted|noinline|inline|end)\b`)
 
 // parseContractFile reads //@ lines.
 func parseContractFile(path, relpkg string) ([]*Contract, error) {
@@ -97,6 +98,8 @@ func parseContractFile(path, relpkg string) ([]*Contract, error) {
 				cur.Trusted = true
 			case "noinline":
 				cur.NoInline = true
+			case "inline":
+				cur.Inline = true
 			case "watch":
 				cur.Watch = append(cur.Watch, strings.Fields(rest)...)
 			case "requires", "ensures", "lemma":
